@@ -438,6 +438,7 @@ class DistributedNetwork(BaseManager):
             await self._check_if_new_parent(peer)
         else:
             logger.info("parent advertised new branch level : %d", message.level)
+            await self._notify_server_of_parent()
             await self._notify_children_of_branch_values()
 
     @on_message(DistributedBranchRoot.Request)
@@ -462,6 +463,7 @@ class DistributedNetwork(BaseManager):
             await self._check_if_new_parent(peer)
         else:
             logger.info("parent advertised new branch root : %s", message.username)
+            await self._notify_server_of_parent()
             await self._notify_children_of_branch_values()
 
     @on_message(DistributedChildDepth.Request)
